@@ -381,15 +381,27 @@ func TestVerifHTMLAtom(t *testing.T) {
 		add("short", []byte{byte(c)})
 	}
 	alpha := []byte("abcdefghijklmnopqrstuvwxyz")
-	if scale >= 8 {
-		alpha = []byte("abcdefghijklmnopqrstuvwxyz0123456789-ABCDEFGHIJKLMNOPQRSTUVWXYZ\x00 \xff")
-	}
-	for _, a := range alpha {
-		for _, b := range alpha {
-			if scale < 8 && rn.Intn(2) == 0 {
-				continue
+	if scale >= 8 { // thorough: ALL two-byte strings and all three-letter words
+		for a := 0; a < 256; a++ {
+			for b := 0; b < 256; b++ {
+				add("short", []byte{byte(a), byte(b)})
 			}
-			add("short", []byte{a, b})
+		}
+		for _, a := range alpha {
+			for _, b := range alpha {
+				for _, c := range alpha {
+					add("short", []byte{a, b, c})
+				}
+			}
+		}
+	} else {
+		for _, a := range alpha {
+			for _, b := range alpha {
+				if rn.Intn(2) == 0 {
+					continue
+				}
+				add("short", []byte{a, b})
+			}
 		}
 	}
 	rr := env.Rand(13)
